@@ -519,7 +519,22 @@ func c01CertainErr(r *ssa.Return, v ssa.Value, depth int) bool {
 	if ErrNilStatus(v, 0) == NonNil {
 		return true
 	}
-	_, nonNil, _ := NilTests(r.Parent(), Aliases(v))
+	if call, ok := v.(*ssa.Call); ok && isCtxErr(call) {
+		return true // ctx.Err() / context.Cause(ctx) returned on the ctx.Done() branch
+	}
+	al := Aliases(v)
+	if _, isZ := v.(zeroMarker); !isZ {
+		// a reload of a named-result cell denotes the value last stored: its other loads may carry the test
+		for _, rv := range Roots(v) {
+			if _, isZ2 := rv.(zeroMarker); isZ2 {
+				continue
+			}
+			for a := range Aliases(rv) {
+				al[a] = true
+			}
+		}
+	}
+	_, nonNil, _ := NilTests(r.Parent(), al)
 	if len(nonNil) > 0 && MustPass(r, newCut().Edges(nonNil...)) {
 		return true
 	}
